@@ -145,9 +145,17 @@ def run_part_a(run, e1, cell, rng, tier):
     PROXY_LINES = {"short": b"PROXY TCP4 1.2.3.4 5.6.7.8 11 22\r\n",
                    "long": b"PROXY TCP6 ffff:ffff:ffff:ffff:ffff:ffff:ffff:ffff ffff:ffff:ffff:ffff:ffff:ffff:ffff:fff0 65535 65534\r\n"}
     for body in (None, b"hello-body"):
-        for hm, under in (("drop", 0), ("drop", 1), ("refuse", 0), ("drop", "long"), ("proxy-short", 0), ("proxy-long", 0)):
+        for hm, under in (("drop", 0), ("drop", 1), ("refuse", 0), ("drop", "long"), ("proxy-short", 0), ("proxy-long", 0), ("folded", 0)):
             cs = dict(cfgset)
             proxy_line = b""
+            folded = False
+            if hm == "folded":
+                # obsolete line folding permitted: one field spread over several lines is still one field
+                if el != "fields" or n < 1 or "limit_request_field_size" in cfgset:
+                    continue        # (how long a folded field is under a small field-size limit is not pinned down: default size only)
+                cs["permit_obsolete_folding"] = True
+                folded = True
+                hm = "drop"
             if hm.startswith("proxy"):
                 # PROXY protocol switched on, the peer is an allowed proxy: the line it puts in front changes nothing about the limits
                 if el != "line":
@@ -164,9 +172,21 @@ def run_part_a(run, e1, cell, rng, tier):
             s = build(L, n, F, body, underscore=1 if under == 1 else 0, long_underscore=(under == "long"))
             if s is None:
                 continue
+            if folded:
+                # fold the first optional field over 4 + (fields limit) lines; the number of FIELDS stays n
+                eff_nf = effective(cs)[1] or 3
+                marker = b"X-0: v\r\n"
+                if marker not in s:
+                    continue
+                s = s.replace(marker, b"X-0: v" + b"".join(b"\r\n w%d" % i for i in range(min(eff_nf + 4, 300))) + b"\r\n", 1)
+                run.count("A_folded_field_cases")
             head_len = s.index(b"\r\n\r\n") + 4 - (L + 2)
-            flens = [len(x) for x in s[:s.index(b"\r\n\r\n")].split(b"\r\n")[1:]]
-            want = expect({k: v for k, v in cs.items() if k != "proxy_protocol"}, L, n, flens, head_len)
+            if folded:
+                # field lengths counted per field (a folded field's length is not pinned down by the documentation: keep it small)
+                flens = [len(x) for x in s[:s.index(b"\r\n\r\n")].replace(b"\r\n w", b" w").split(b"\r\n")[1:]]
+            else:
+                flens = [len(x) for x in s[:s.index(b"\r\n\r\n")].split(b"\r\n")[1:]]
+            want = expect({k: v for k, v in cs.items() if k not in ("proxy_protocol", "permit_obsolete_folding")}, L, n, flens, head_len)
             s = proxy_line + s
             stream = s + gen.marker(1, b"end")
             if proxy_line:
@@ -238,6 +258,11 @@ FLOODS = {
     "later-chunk-size": (b"POST / HTTP/1.1\r\nTransfer-Encoding: chunked\r\n\r\n3\r\nabc\r\n", b"1", True),
     "trailer-lines": (b"POST / HTTP/1.1\r\nTransfer-Encoding: chunked\r\n\r\n3\r\nabc\r\n0\r\n", b"X-T: v\r\n", True),
     "trailer-line": (b"POST / HTTP/1.1\r\nTransfer-Encoding: chunked\r\n\r\n0\r\nX-T: ", b"t", True),
+    # after a served request: where the next request line should start
+    "empty-lines-after-request": (b"GET /first HTTP/1.1\r\nHost: h\r\n\r\n", b"\r\n", False),
+    "garbage-after-request": (b"GET /first HTTP/1.1\r\nHost: h\r\n\r\n", b"z", False),
+    "header-lines-after-request": (b"GET /first HTTP/1.1\r\nHost: h\r\n\r\nGET /second HTTP/1.1\r\n", b"X-F: v\r\n", False),
+    "empty-lines-first": (b"\r\n", b"\r\n", False),
 }
 FLOOD_CFGS = [
     {},
@@ -289,6 +314,36 @@ def run_part_b(run, e1, name, cfgset, piece, factor):
         run.inconclusive_because("flood %s ended below the bound without rejection: %s" % (name, obs["terminal"]))
 
 
+def run_part_c(run, e2, kind, name, cfgset):
+    """The same floods against a real worker loop (engine E2): once the head is refused, the worker must let go - what the client can
+    still push into the connection is bounded by the configuration-derived bound plus what sockets buffer on their own."""
+    prefix, unit, needs_body = FLOODS[name]
+    h = e2.Harness(kind, dict(cfgset, keepalive=2))
+
+    def app(environ, start_response):
+        if needs_body:
+            environ["wsgi.input"].read()
+        start_response("200 OK", [("Content-Length", "2")])
+        return [b"ok"]
+    try:
+        b = bound(cfgset)
+        limit = b + 12 * 1024 * 1024
+        out = h.connection(prefix, app, flood=(unit, limit), timeout=20.0, mode="close")
+        run.case(("C", kind, name, json.dumps(cfgset, sort_keys=True)))
+        run.count("C_worker_floods")
+        sent = out["flood_sent"] or 0
+        run.info["C_max_flood_taken#max"] = max(run.info.get("C_max_flood_taken#max", 0), sent)
+        if sent > b + 4 * 1024 * 1024:
+            run.violation("worker-keeps-taking-input/" + name,
+                          "%s worker, endless %s: the client pushed %d bytes into the connection (bound for this configuration %d, "
+                          "plus socket buffers) and was %s" % (kind, name, sent, b, out["client_err"] or "never turned away"),
+                          {"part": "C", "kind": kind, "flood": name, "cfg": cfgset})
+        else:
+            run.count("C_client_turned_away_within_bound")
+    finally:
+        h.close()
+
+
 def shard(sh):
     from vlib import e1_wire as e1
     tier = sh.get("tier", "quick")
@@ -302,6 +357,11 @@ def shard(sh):
             c = cells[0]
             run.sample({"part": "A", "cfg": c[0], "element": c[1], "offset": c[2], "line_len": c[3],
                         "fields": c[4], "longest_field": c[5]})
+    elif sh["kind"] == "C":
+        from vlib import e2_worker as e2
+        for kind, name in sh["cells"]:
+            run_part_c(run, e2, kind, name, sh["cfg"])
+        run.sample({"part": "C", "cells": sh["cells"][:3], "cfg": sh["cfg"]}, cap=1)
     else:
         run_part_b(run, e1, sh["flood"], sh["cfg"], sh["piece"], sh["factor"])
         run.sample({"part": "B", "flood": sh["flood"], "cfg": sh["cfg"], "read_size": sh["piece"],
@@ -311,7 +371,8 @@ def shard(sh):
 
 def main(tier, seed):
     run = Run(PROP, tier, seed, "exploration", RULE)
-    run.require("A_accept_ok", "A_reject_ok", "A_either", "B_floods", "B_rejected_within_bound", "A_proxy_line_cases")
+    run.require("A_accept_ok", "A_reject_ok", "A_either", "B_floods", "B_rejected_within_bound", "A_proxy_line_cases", "A_folded_field_cases", "C_worker_floods",
+                "C_client_turned_away_within_bound")
     q = tier == "quick"
     shards = [{"kind": "A", "sub": i, "of": 16, "seed": seed, "tier": tier} for i in range(16)]
     rng = rng_for(seed, "c12-main")
@@ -327,6 +388,10 @@ def main(tier, seed):
                        "seed": seed, "tier": tier})
         shards.append({"kind": "B", "flood": "header-line", "cfg": FLOOD_CFGS[1], "piece": 1, "factor": 4,
                        "seed": seed, "tier": tier})
+    ccells = [(k, n) for n in FLOODS for k in ("sync", "gthread", "async")]
+    for i, cfgset in enumerate([FLOOD_CFGS[1], FLOOD_CFGS[3]] + ([] if q else [FLOOD_CFGS[0], FLOOD_CFGS[2]])):
+        for j in range(4):
+            shards.append({"kind": "C", "cells": ccells[j::4], "cfg": cfgset, "seed": seed, "tier": tier})
     run.assumptions = [
         "tolerance band: an element of exactly limit-1 or limit bytes may be accepted or rejected (docs do not say whether CRLF counts)",
         "limit_request_fields=0 is not judged (undocumented); heads larger than the configuration-derived buffer cap are not judged for acceptance",
@@ -337,6 +402,13 @@ def main(tier, seed):
     return run.finish()
 
 
+def replay_c(case):
+    from vlib import e2_worker as e2
+    run = Run(PROP, "quick", 0, "exploration", RULE)
+    run_part_c(run, e2, case["kind"], case["flood"], case["cfg"])
+    return run
+
+
 def replay(path):
     from vlib import e1_wire as e1
     with open(path) as f:
@@ -345,6 +417,8 @@ def replay(path):
     run = Run(PROP, "quick", 0, "exploration", RULE)
     if c["part"] == "B":
         run_part_b(run, e1, c["flood"], c["cfg"], c["piece"], c["factor"])
+    elif c["part"] == "C":
+        run = replay_c(c)
     else:
         cfg = e1.make_cfg(**c["cfg"])
         stream = bytes.fromhex(c["stream"])
